@@ -271,12 +271,12 @@ theorem gated_start_blocks (n : Nat) (s0 : EState) (plan : Gen) (futs : List Nat
     Blocked F s2 ∧ s2.msgs = s0.msgs ++ [mWaitFor F] ∧ s2.planStack = [Gen.list [], plan] ∧ s2.respStack = [.none] := by
   intro s2
   let g := startCallGated s0 plan futs F
-  have hg : g = { startCall s0 plan with planStack := [Gen.list [mWaitForGate F], plan], respStack := [.none, .none] } := by
+  have hg : g = { startCall s0 plan with planStack := [Gen.fresh [mWaitForGate F], plan], respStack := [.none, .none] } := by
     show startCallGated s0 plan futs F = _
     unfold startCallGated; rw [hne]; rfl
   have v1 := start_turn n g (by rw [hg]; rfl) (by rw [hg]; rfl) (by rw [hg]; exact hidle) (by rw [hg]; rfl)
   have g1 : ∀ {α} (p : View → α), p (view (advance (n + 1) g)) = _ := fun p => congrArg p v1
-  have v2 := waitfor_generic n (advance (n + 1) g) F .none (Gen.list [mWaitFor F]) (Gen.list []) [.none] [plan]
+  have v2 := waitfor_generic n (advance (n + 1) g) F .none (Gen.fresh [mWaitFor F]) (Gen.list []) [.none] [plan]
     (g1 View.pc) ((g1 View.cancelPending).trans (by rw [hg]; rfl)) (g1 View.stashed)
     ((g1 View.exceptionSlot).trans (by rw [hg]; rfl)) ((g1 View.respStack).trans (by rw [hg]; rfl))
     ((g1 View.planStack).trans (by rw [hg]; rfl)) rfl rfl rfl ((g1 (fun V => V.futs.contains F)).trans (by rw [hg]; exact hF))
